@@ -952,4 +952,64 @@ example :
 
 end FromFinal
 
+section FromFinal2
+open ChythonModel.Model.StereoFix ChythonModel.Proofs.C12Fix
+
+/-- the molecule the transfer loops build is numbered 1 … N (moving labels renumbers nothing): atom numbers are distinct -/
+theorem from_ids (r : RMol) (nbrs : List (List Nat)) (c : CMol) (h : fromRd r nbrs = .ok c) :
+    c.mol.ids = (List.range r.atoms.length).map (· + 1) ∧ c.mol.ids.Nodup := by
+  have key : c.mol.ids = (List.range r.atoms.length).map (· + 1) := by
+    unfold fromRd at h
+    cases hg : fromGraph r nbrs with
+    | error e => simp [hg, bind, Except.bind] at h
+    | ok v =>
+      obtain ⟨c0, tet, ct⟩ := v
+      cases henv : liftPy (stereoEnvOf c0.mol) with
+      | error e => simp [hg, henv, bind, Except.bind] at h
+      | ok env =>
+        simp only [hg, henv, bind, Except.bind, fromRdWith] at h
+        cases h1 : moveTetra env (isHOf c0.mol) tet c0.mol with
+        | error e => simp [h1] at h
+        | ok m1 =>
+          cases h2 : moveCisTrans env (isHOf c0.mol) ct m1 with
+          | error e => simp [h1, h2] at h
+          | ok m2 =>
+            simp only [h1, h2, pure, Except.pure, Except.ok.injEq] at h
+            subst h
+            simp only
+            rw [moveCisTrans_ids env _ ct m1 m2 h2, moveTetra_ids env _ tet c0.mol m1 h1]
+            exact (from_shape r nbrs c0 tet ct hg).1
+  refine ⟨key, ?_⟩
+  rw [key]
+  exact (List.nodup_range).map (fun a b hab => by simpa using hab)
+
+/-- **`from_rdkit_molecule`, dependent centres are kept.** For the molecule the function returns: a label the transfer loops put on
+a key of `stereogenic_tetrahedrons` (of the molecule as built from the RDKit atoms and bonds), whose unit the `chiral_*` sets report
+chiral once the labels finally present are there, is on the returned molecule with the same sign — however many restore rounds
+that takes. (A one-pass validation of the labels against the unlabelled molecule, as in the seeded change of round 5, violates
+exactly this.) -/
+theorem from_final_atom_complete (r : RMol) (nbrs : List (List Nat)) (ch : List Label → SUnit → Bool) (c c' : CMol) (o : Out)
+    (hf : fromRdFinal r nbrs ch = .ok (c', some o)) (hc : fromRd r nbrs = .ok c)
+    (c0 : CMol) (tet : List (Nat × List Nat × Bool)) (ct : List (Nat × Nat × Nat × Nat × Bool))
+    (hg : fromGraph r nbrs = .ok (c0, tet, ct)) (env : StereoEnv) (henv : stereoEnvOf c0.mol = .ok env)
+    (n : Nat) (a : Atom) (s : Bool) (ha : (n, a) ∈ c.mol.atoms) (hs : a.stereo = some s)
+    (ht : (env.stet.lookup n).isSome = true) (hch : ch o.labels ⟨.tetra, n, 0⟩ = true) :
+    ∀ a', (n, a') ∈ c'.mol.atoms → a'.stereo = some s := by
+  have hnd := (from_ids r nbrs c hc).2
+  have henv' : liftPy (stereoEnvOf c0.mol) = .ok env := by rw [henv]; rfl
+  unfold fromRd at hc
+  simp only [hg, henv', bind, Except.bind] at hc
+  unfold fromRdFinal at hf
+  cases hsc : liftPy (stereogenicCumulenes c0.mol) with
+  | error e => simp [hg, hsc, bind, Except.bind] at hf
+  | ok sc =>
+    simp only [hg, hsc, henv', hc, bind, Except.bind, pure, Except.pure] at hf
+    split at hf
+    · simp at hf
+    · simp only [Except.ok.injEq, Prod.mk.injEq, Option.some.injEq] at hf
+      obtain ⟨rfl, rfl⟩ := hf
+      exact fix_stereo_mol_atom_complete ch c.mol env sc hnd n a s ha hs ht hch
+
+end FromFinal2
+
 end ChythonModel.Props.C20
